@@ -2200,7 +2200,10 @@ class CParser:
         cond = self._parse_constant_expression()
         msg = None
         if self._accept("COMMA"):
-            msg = self._parse_unified_string_literal()
+            if self._peek_type() in _WSTR_LITERAL:
+                msg = self._parse_unified_wstring_literal()
+            else:
+                msg = self._parse_unified_string_literal()
         self._expect("RPAREN")
         return [c_ast.StaticAssert(cond, msg, self._tok_coord(tok))]
 
